@@ -115,4 +115,64 @@ def Inv (s : St α) : Prop :=
   ((s.items.map (·.key)).Nodup) ∧ s.items.length ≤ s.cap ∧
   ∀ e ∈ s.items, e.dirty = false → s.disk e.key = e.val
 
+/-! ### the flush as the code does it: it changes the recency order
+
+`fileStore.flushPagesLocked` ranges over the cache's Go map - in an order that is arbitrary and differs
+from run to run - and for every dirty page calls `update`, which ends in `setCache` = `LRUCache.set` of
+a resident key = `MoveToFront`, and then `markClean`.  After a flush every page that was dirty is at the
+front of the recency list, the page visited LAST in front; the pages that were clean follow in their old
+relative order.  `flush` above is the idealisation that keeps the order; `flushOrd` is the code. -/
+
+/-- `markClean` -/
+def clean (e : Ent α) : Ent α := { e with dirty := false }
+
+/-- one turn of the loop of `flushPagesLocked` at page `k`: a resident dirty page is written,
+moved to the front (`update` → `setCache` → `MoveToFront`) and marked clean; anything else is skipped -/
+def visit (l : List (Ent α)) (k : Nat) : List (Ent α) :=
+  match find? l k with
+  | some e => if e.dirty then clean e :: remove l k else l
+  | none => l
+
+/-- `flushPagesLocked` when the map iteration meets the keys in the order `order` (first visited
+first; so the LAST key of `order` ends up in front).  Total in `order`: a key that is not resident, not
+dirty, or was met before is skipped (as the loop skips clean pages; a Go map has each key once); dirty
+pages that `order` does not name are visited after the named ones, coldest first (they go in front of the
+named ones and keep their relative order).  The code visits every dirty page, so its behaviours are
+exactly the `order`s that enumerate the dirty resident keys; completing the other `order`s instead of
+demanding an enumeration keeps every theorem free of a side condition on `order` and adds no
+behaviour (`flushOrd_complete_order` in Proofs/FlushOrder3: every `order` gives the state of one that
+enumerates the dirty keys).  Disk and dirty bits are those of `flush`. -/
+def flushOrd (s : St α) (order : List Nat) : St α :=
+  let v := order.foldl visit s.items
+  { s with
+    disk := (flush s).disk
+    items := (v.filter fun e => e.dirty).map clean ++ v.filter fun e => !e.dirty }
+
+/-- `Op` with the flush of the code: the order of the map iteration is a parameter of the operation -/
+inductive OpF (α : Type) where
+  | fetch (k : Nat)
+  | write (k : Nat) (f : α → α)
+  | flushOrd (order : List Nat)
+
+/-- the operation with the iteration order forgotten -/
+def OpF.toOp : OpF α → Op α
+  | .fetch k => .fetch k
+  | .write k f => .write k f
+  | .flushOrd _ => .flush
+
+def stepF (s : St α) : OpF α → Option (St α × Option α)
+  | .fetch k => (fetch s k).map fun (s', v) => (s', some v)
+  | .write k f => (write s k f).map fun s' => (s', none)
+  | .flushOrd order => some (flushOrd s order, none)
+
+def runF (s : St α) : List (OpF α) → Option (St α × List (Option α))
+  | [] => some (s, [])
+  | op :: rest =>
+    match stepF s op with
+    | none => none
+    | some (s', o) =>
+      match runF s' rest with
+      | none => none
+      | some (s'', os) => some (s'', o :: os)
+
 end Mkdb.PageCache
